@@ -609,6 +609,7 @@ func graphPools(thorough bool) []Pool {
 		{CIDR: "2001:db8:0:10::/63", Page: 65},
 		{CIDR: "2001:db8:0:10::/64", Page: 66},
 		{CIDR: "2001:db8::fff0/126", Page: 128},
+		{CIDR: "2001:db8:0:140::/58", Page: 60}, // block length not a multiple of 8 bits, pool base with bits set in the partial octet
 		{CIDR: "::/0", Page: 2},
 		{CIDR: "ffff:ffff:ffff:ffff:ffff:ffff:ffff:fffc/126", Page: 128},
 	}
